@@ -31,8 +31,8 @@ LEVEL_NOTE = "Trusted: the harness's winding-number test, shoelace area, affine 
 
 def budget(tier):
     if tier == "quick":
-        return dict(max_examples=1500, workers=4, time_s=170, min_cases=400)
-    return dict(max_examples=100000, workers=16, time_s=1200, min_cases=800)
+        return dict(max_examples=4000, workers=8, time_s=170, min_cases=1000)
+    return dict(max_examples=300000, workers=16, time_s=1200, min_cases=2000)
 
 
 @st.composite
